@@ -5,6 +5,7 @@
 import SymfcModel.Lemmas.Api
 import SymfcModel.Gen.SolverState
 import SymfcModel.Gen.Purity
+import SymfcModel.Gen.ApiAccess
 namespace Symfc.C12
 open Symfc
 
@@ -127,6 +128,13 @@ example : ((solveStep genApiCfg demoState none (some [3, 2]) true).1 != demoStat
     supplied by the caller) could leave something behind for a later one; this is what makes the pure-function model
     of the pipeline adequate. -/
 theorem no_state_survives_a_call : Gen.hiddenState = [] := by decide
+
+/-- C12.e' (the API object and the caller's arrays, extracted from class `Symfc`): the dataset setters store a fresh copy
+    (`np.array(...)`) and no method writes INTO an array — the only subscript stores are the result, basis-set and
+    cutoff dictionaries. Hence neither a setter nor a solve can reach the caller's arrays or another object's data
+    through the API object. -/
+theorem api_stores_copies_and_never_writes_into_arrays :
+    Gen.apiSettersCopy = true ∧ Gen.apiArrayWrites = [] := by decide
 
 /-- C12.f (solver OBJECTS, extracted from the six solver classes): the result accessors (`full_fc`, `compact_fc`,
     `_recover_fcs`) read nothing but the coefficients of the last solve (and the constructor inputs), they and every
